@@ -1,5 +1,6 @@
 import Orx.KSRun
 import Orx.IW.Outs
+import Orx.GenThms
 /-! # C02 Index fidelity: a reported index is the element's source position -/
 namespace Orx.Props.C02
 open Orx Orx.KS
@@ -115,5 +116,17 @@ theorem iter_accumulator_fidelity (s : IW.Script) (ps : Nat → List IW.Req)
     (k : Nat) (hk : k < ((IW.run s σ (IW.init ps)).th t).pc.acc.length) :
     s (b + k) = .some (((IW.run s σ (IW.init ps)).th t).pc.acc[k]) :=
   ((IW.inv_reach s ps hok σ hW).accOk t b n h).1 k hk
+
+
+/-! ## The source itself (translated on every run) -/
+open Orx.RS Orx.Gen Orx.GenThms in
+/-- **single pulls, as they are in the source**: the counter value `c` read by the one `fetch_add(1)` is the reported
+index, and the element is the one at position `c` (for a range: `start + c`) — or the end is reported when `c ≥ len` -/
+theorem source_single_pull_fidelity (len a b c : Nat) (evs dr) (ha : a < W) (hb : b < W) :
+    Slice.fetch_one (slice len) (st c evs dr) = .ok (if c < len then some ⟨c, c⟩ else none) (st (wrapAdd c 1) (evs ++ [faa c 1]) dr) ∧
+    Vec.fetch_one (vec len) (st c evs dr) = .ok (if c < len then some ⟨c, c⟩ else none) (st (wrapAdd c 1) (evs ++ [faa c 1]) dr) ∧
+    Arr.fetch_one len (arr len) (st c evs dr) = .ok (if c < len then some ⟨c, c⟩ else none) (st (wrapAdd c 1) (evs ++ [faa c 1]) dr) ∧
+    Range.fetch_one (range a b) (st c evs dr) = .ok (if c < b - a then some ⟨c, a + c⟩ else none) (st (wrapAdd c 1) (evs ++ [faa c 1]) dr) :=
+  ⟨slice_fetch_one len c evs dr, vec_fetch_one len c evs dr, arr_fetch_one len c evs dr, range_fetch_one a b c evs dr ha hb⟩
 
 end Orx.Props.C02
